@@ -287,6 +287,20 @@ class WaitCallback:
     def __call__(self, mgr, req):
         self.w.called(self, mgr, req)
 
+    def fire(self, mgr, req):
+        '''The same as a bound method (kind 'method': the waiting list then holds the only reference to the object).'''
+        self.w.called(self, mgr, req)
+
+
+def _cid_of(cb):
+    '''Identity of a registered callback however the library keeps it (the object, a bound method of it, a weak
+    reference to either); None when it cannot be told any more.'''
+    import weakref
+    if isinstance(cb, weakref.ReferenceType):
+        cb = cb()
+    o = getattr(cb, '__self__', cb)
+    return getattr(o, 'cid', None)
+
 
 @world('rmwait')
 class RMWaitWorld(CompWorld):
@@ -424,10 +438,12 @@ class RMWaitWorld(CompWorld):
             self.facts.append('registered')
         elif k == 'wait':
             self.ncb += 1
-            cb = WaitCallback(self, self.ncb, label[2], label[1])
-            self.waiting.append([cb.cid, label[1], label[2]])
+            cb = WaitCallback(self, self.ncb, 'noop' if label[2] == 'method' else label[2], label[1])
+            self.waiting.append([cb.cid, label[1], cb.kind])
             mine = copy.deepcopy(self.requests[label[1]])
-            rm.reserve_resources_with_callback(mine, cb)
+            # kind 'method': a bound method of an object created on the spot, referenced by nothing else
+            rm.reserve_resources_with_callback(mine, cb.fire if label[2] == 'method' else cb)
+            del cb
             for k_ in list(mine):
                 mine[k_] = 77             # the caller re-uses its dictionary while the request is waiting
             self.dirty = True
@@ -506,7 +522,7 @@ class RMWaitWorld(CompWorld):
             got = (rm.get_resource_usage(r), rm.get_resource_capacity(r))
             if got != tuple(self.pool.get(r, [0, 0])):
                 raise Violation('pool', f'{r}: {got} vs reference {self.pool.get(r)}')
-        real = [(cb.cid, req) for req, cb in rm._waiting_requests]
+        real = [(_cid_of(cb), req) for req, cb in rm._waiting_requests]
         want = [(cid, self.requests[ri]) for cid, ri, kind in self.waiting]
         if real != want:
             raise Violation('waiting_list', f'registered requests {real} vs reference {want}')
